@@ -468,7 +468,9 @@ impl<'a, Input: InputIndexer> MatchAttempter<'a, Input> {
         core::mem::swap(&mut self.bts, &mut saved_bts);
 
         // Enter into the lookaround's instruction stream.
+        sim_step!(LOOK_IN, saved_bts.len());
         let matched = self.try_at_pos(*input, ip, pos, Dir::new()).is_some();
+        sim_step!(LOOK_OUT, matched as usize);
 
         // Put back our bts.
         core::mem::swap(&mut self.bts, &mut saved_bts);
@@ -503,6 +505,7 @@ impl<'a, Input: InputIndexer> MatchAttempter<'a, Input> {
             // We always have a single Exhausted instruction backstopping our stack,
             // so we do not need to check for empty bts.
             debug_assert!(!self.bts.is_empty(), "Backtrack stack should not be empty");
+            sim_step!(BT_POP, self.bts.len());
             let bt = match self.bts.last_mut() {
                 Some(bt) => bt,
                 None => rs_unreachable!("BT stack should never be empty"),
@@ -656,6 +659,7 @@ impl<'a, Input: InputIndexer> MatchAttempter<'a, Input> {
                     };
                 }
 
+                sim_step!(BT_INSN, self.bts.len());
                 match re.insns.iat(ip) {
                     &Insn::Char(c) => {
                         let m = match <<Input as InputIndexer>::Element as ElementType>::try_from(c)
@@ -1019,7 +1023,9 @@ impl<Input: InputIndexer> BacktrackExecutor<'_, Input> {
         // TODO: avoid allocating so much.
         let mut captures = Vec::new();
         captures.reserve_exact(self.matcher.s.groups.len());
+        sim_step!(BT_REPORT, 0);
         for gd in self.matcher.s.groups.iter_mut() {
+            sim_step!(BT_REPORT, 1);
             captures.push(match gd.as_range() {
                 Some(r) => Some(Range {
                     start: self.input.pos_to_offset(r.start),
@@ -1047,6 +1053,7 @@ impl<Input: InputIndexer> BacktrackExecutor<'_, Input> {
     ) -> Option<Match> {
         let inp = self.input;
         // For anchored regexes, only try matching at the current position
+        sim_step!(BT_START, 0);
         if let Some(end) = self.matcher.try_at_pos(inp, 0, pos, Forward::new()) {
             // If we matched the empty string, we have to increment.
             if end != pos {
@@ -1074,6 +1081,7 @@ impl<Input: InputIndexer> BacktrackExecutor<'_, Input> {
             // Find the next start location, or None if none.
             // Don't try this unless CODE_UNITS_ARE_BYTES - i.e. don't do byte searches
             // on UTF-16 or UCS2.
+            sim_step!(BT_START, 0);
             if Input::CODE_UNITS_ARE_BYTES {
                 pos = inp.find_bytes(pos, prefix_search)?;
             }
@@ -1107,6 +1115,9 @@ impl<Input: InputIndexer> exec::MatchProducer for BacktrackExecutor<'_, Input> {
         // When UTF-16 support is active prefix search is not used due to the different encoding.
         #[cfg(feature = "utf16")]
         return self.next_match_with_prefix_search(pos, next_start, &bytesearch::EmptyString {});
+
+        #[cfg(feature = "verif-sim")]
+        crate::simhook::step(crate::simhook::pred_site(&self.matcher.re.start_pred), 0);
 
         #[cfg(not(feature = "utf16"))]
         match &self.matcher.re.start_pred {
